@@ -54,7 +54,9 @@ YAML_SAFE = {"safe_load", "safe_load_all", "safe_dump", "safe_dump_all", "dump",
 YAML_SAFE_LOADERS = {"SafeLoader", "CSafeLoader", "BaseLoader", "CBaseLoader"}
 PICKLE_LIKE = ("pickle", "cPickle", "_pickle", "dill", "cloudpickle", "marshal", "shelve", "jsonpickle")
 SERIALISE_ONLY = {"dump", "dumps", "Pickler", "HIGHEST_PROTOCOL", "DEFAULT_PROTOCOL", "PicklingError", "PickleError"}
-PROCESS_PREFIX = ("subprocess", "pty", "ctypes", "multiprocessing", "runpy", "imp", "commands", "popen2", "_posixsubprocess", "concurrent.futures.process")
+PROCESS_PREFIX = ("subprocess", "pty", "ctypes", "multiprocessing", "runpy", "imp", "commands", "popen2", "_posixsubprocess", "concurrent.futures.process",
+                  "asyncio.create_subprocess_exec", "asyncio.create_subprocess_shell", "asyncio.subprocess", "platform.popen")
+STAR_ROOTS = ("os", "subprocess", "socket", "pickle", "yaml", "shutil", "importlib", "ast", "marshal", "tempfile", "ctypes", "multiprocessing", "builtins", "io", "codecs")
 OS_PROCESS = ("system", "popen", "exec", "spawn", "posix_spawn", "fork", "startfile", "kill", "killpg", "putenv")
 NETWORK_PREFIX = ("socket", "ssl", "urllib.request", "urllib2", "http.client", "http.server", "requests", "httpx", "aiohttp", "ftplib", "smtplib",
                   "telnetlib", "xmlrpc", "poplib", "imaplib", "nntplib", "socketserver", "webbrowser", "asyncio.open_connection", "asyncio.start_server")
@@ -89,7 +91,15 @@ class _Module:
             for c in ast.iter_child_nodes(p):
                 self.parents[c] = p
         self.alias = {}
+        self.star = []  # `from M import *` for watched modules: bare names are looked up in M
         for n in ast.walk(tree):
+            if isinstance(n, ast.ImportFrom) and n.module and n.level == 0 and any(a.name == "*" for a in n.names) and n.module.split(".")[0] in STAR_ROOTS:
+                try:
+                    import importlib
+
+                    self.star.append((n.module, importlib.import_module(n.module)))
+                except Exception:  # noqa
+                    pass
             if isinstance(n, ast.Import):
                 for a in n.names:
                     if a.asname:
@@ -120,6 +130,9 @@ class _Module:
                 return self.alias[node.id]
             if hasattr(builtins, node.id):
                 return node.id
+            for mod_name, mod in self.star:
+                if hasattr(mod, node.id) and not node.id.startswith("_"):
+                    return mod_name + "." + node.id
             return None
         if isinstance(node, ast.Attribute):
             base = self.resolve(node.value)
@@ -510,8 +523,13 @@ def selftest():
         p = Path(d) / "cdd"
         p.mkdir()
         (p / "m.py").write_text(SELFTEST)
-        got = sorted(s["kind"] for s in scan(Path(d)))
+        (p / "star.py").write_text("from subprocess import *\nfrom yaml import *\ndef g(a):\n    Popen(a); check_output(a); unsafe_load(a); safe_load(a); len(a)\n")
         sites = scan(Path(d))
+        star = sorted(s["kind"] for s in sites if s["file"].endswith("star.py"))
+        if star != sorted([K_UNSAFE, K_UNSAFE, K_UNSAFE, K_YAML_SAFE]):
+            return False, "self-test (star imports): kinds %s; sites %s" % (star, [(s["line"], s["api"], s["kind_name"]) for s in sites if s["file"].endswith("star.py")])
+        sites = [s for s in sites if s["file"].endswith("m.py")]
+        got = sorted(s["kind"] for s in sites)
     if got != SELFTEST_EXPECT:
         return False, "self-test: kinds %s, expected %s; sites: %s" % (got, SELFTEST_EXPECT, [(s["line"], s["api"], s["kind_name"]) for s in sites])
-    return True, "%d sites of the self-test module classified as expected" % len(got)
+    return True, "%d + 4 sites of the two self-test modules classified as expected" % len(got)
